@@ -4,6 +4,6 @@ go 1.23
 
 require github.com/absfs/absnfs v0.0.0
 
-require github.com/absfs/absfs v1.0.0 // indirect
+require github.com/absfs/absfs v1.0.0
 
 replace github.com/absfs/absnfs => /repo
